@@ -47,11 +47,16 @@ pub enum Op {
     Add { spender: u8, token: u8, amount: Amt },
     Collect { by: By, receiver: u8, token: u8, amount: Amt },
     Refund { by: By, receiver: u8, token: u8, amount: Amt },
+    /// the contract's ownership goes to a fresh address (the collector role must not move with it)
+    TransferOwnership,
 }
 
 #[derive(Clone, Debug, Serialize, Deserialize)]
 pub struct Case {
     pub ops: Vec<Op>,
+    /// deployed with owner == gas collector
+    #[serde(default)]
+    pub single_key: bool,
 }
 
 fn amt() -> impl Strategy<Value = Amt> {
@@ -66,6 +71,7 @@ fn op() -> impl Strategy<Value = Op> {
         3 => (0u8..NS as u8, 0u8..NT as u8, amt()).prop_map(|(spender, token, amount)| Op::Add { spender, token, amount }),
         3 => (by(), 0u8..NR as u8, 0u8..NT as u8, amt()).prop_map(|(by, receiver, token, amount)| Op::Collect { by, receiver, token, amount }),
         3 => (by(), 0u8..NR as u8, 0u8..NT as u8, amt()).prop_map(|(by, receiver, token, amount)| Op::Refund { by, receiver, token, amount }),
+        1 => Just(Op::TransferOwnership),
     ]
 }
 
@@ -88,7 +94,7 @@ impl Property for C14 {
         "C14"
     }
     fn rule(&self) -> &'static str {
-        "proptest histories (<=30 quick / <=60 thorough ops) over 4 tokens (two Stellar asset contracts, one current-source InterchainToken, and a harness token that checks neither sign nor balance, so that the service's own amount checks are what is tested), 3 spenders, 6 receivers (three accounts, the gas service itself, the gas collector, the contract owner): pay_gas, add_gas, collect_fees, refund with amounts 0, -1, 1, small, exact balance, balance+1, i128::MAX (relative to the spender's balance for payments and to the service's balance for payouts), payouts authorised by the collector, by a stranger, by the contract owner, or by nobody. Oracle: per-token running balance = paid + added - collected - refunded, compared with token.balance(service) and all spender/receiver balances after every step; payments need amount > 0 and move exactly that; payouts need the collector and never exceed the balance; one gas service event per movement carrying the same token and amount; refused calls leave the ledger snapshot identical. non-trivial = history touches >= 2 tokens and contains a successful payout; distinct by Debug hash"
+        "proptest histories (<=30 quick / <=60 thorough ops) over 4 tokens (two Stellar asset contracts, one current-source InterchainToken, and a harness token that checks neither sign nor balance, so that the service's own amount checks are what is tested), 3 spenders, 6 receivers (three accounts, the gas service itself, the gas collector, the contract owner): pay_gas, add_gas, collect_fees, refund with amounts 0, -1, 1, small, exact balance, balance+1, i128::MAX (relative to the spender's balance for payments and to the service's balance for payouts), payouts authorised by the collector, by a stranger, by the (current) contract owner, or by nobody; deployments with distinct owner and collector or with one address holding both roles, and ownership transfers in the history (the collector role must stay where it was). Oracle: per-token running balance = paid + added - collected - refunded, compared with token.balance(service) and all spender/receiver balances after every step; payments need amount > 0 and move exactly that; payouts need the collector and never exceed the balance; one gas service event per movement carrying the same token and amount; refused calls leave the ledger snapshot identical. non-trivial = history touches >= 2 tokens and contains a successful payout; distinct by Debug hash"
     }
     fn assumptions(&self) -> Vec<&'static str> {
         vec![
@@ -100,12 +106,13 @@ impl Property for C14 {
         tier.pick(3000, 40000)
     }
     fn strategy(&self, tier: Tier) -> BoxedStrategy<Case> {
-        proptest::collection::vec(op(), 1..=tier.pick(30usize, 60usize)).prop_map(|ops| Case { ops }).boxed()
+        (proptest::collection::vec(op(), 1..=tier.pick(30usize, 60usize)), prop_oneof![2 => Just(false), 1 => Just(true)]).prop_map(|(ops, single_key)| Case { ops, single_key }).boxed()
     }
 
     fn run(&self, case: &Case, cx: &mut Cx) -> Result<(), String> {
         let env = new_env();
-        let gas = deploy_gas(&env);
+        let gas = deploy_gas_cfg(&env, case.single_key);
+        let mut owner_now = gas.owner.clone();
         let spenders: Vec<Address> = (0..NS).map(|_| Address::generate(&env)).collect();
         let mut receivers: Vec<Address> = (0..3).map(|_| Address::generate(&env)).collect();
         receivers.push(gas.id.clone());
@@ -142,8 +149,17 @@ impl Property for C14 {
         let mut payout = false;
 
         for (step, op) in case.ops.iter().enumerate() {
+            if let Op::TransferOwnership = op {
+                env.mock_all_auths();
+                let new_owner = Address::generate(&env);
+                gas.client.transfer_ownership(&new_owner);
+                owner_now = new_owner;
+                cx.label(if case.single_key { "ownership_moved_away_from_single_key" } else { "ownership_transferred" });
+                continue;
+            }
             let ti = match op {
                 Op::Pay { token, .. } | Op::Add { token, .. } | Op::Collect { token, .. } | Op::Refund { token, .. } => *token as usize % NT,
+                Op::TransferOwnership => unreachable!(),
             };
             let taddr = tokens[ti].clone();
             touched[ti] = true;
@@ -166,9 +182,10 @@ impl Property for C14 {
             match (op, by) {
                 (Op::Pay { .. } | Op::Add { .. }, _) | (_, By::Collector) => env.mock_all_auths(),
                 (_, By::Nobody) => env.mock_auths(&[]),
+                (Op::TransferOwnership, _) => unreachable!(),
                 (Op::Collect { receiver, amount, .. }, b) => {
                     let a = resolve(if ti == SLOPPY && *amount == Amt::Max { Amt::BalPlus1 } else { *amount }, held[ti]);
-                    let who = if b == By::Stranger { &stranger } else { &gas.owner };
+                    let who = if b == By::Stranger { &stranger } else { &owner_now };
                     let inv = MockAuthInvoke {
                         contract: &gas.id,
                         fn_name: "collect_fees",
@@ -179,7 +196,7 @@ impl Property for C14 {
                 }
                 (Op::Refund { receiver, amount, .. }, b) => {
                     let a = resolve(if ti == SLOPPY && *amount == Amt::Max { Amt::BalPlus1 } else { *amount }, held[ti]);
-                    let who = if b == By::Stranger { &stranger } else { &gas.owner };
+                    let who = if b == By::Stranger { &stranger } else { &owner_now };
                     let inv = MockAuthInvoke {
                         contract: &gas.id,
                         fn_name: "refund",
@@ -235,7 +252,8 @@ impl Property for C14 {
                 Op::Collect { by, receiver, amount: a, .. } => {
                     let ri = *receiver as usize % NR;
                     amount = resolve(if ti == SLOPPY && *a == Amt::Max { Amt::BalPlus1 } else { *a }, held[ti]);
-                    expect = if *by == By::Collector && amount > 0 && amount <= held[ti] { E::Ok } else { E::Fail };
+                    let signer_is_collector = *by == By::Collector || (*by == By::Owner && owner_now == gas.collector);
+                    expect = if signer_is_collector && amount > 0 && amount <= held[ti] { E::Ok } else { E::Fail };
                     let tok = Token { address: taddr.clone(), amount };
                     let r = gas.client.try_collect_fees(&receivers[ri], &tok);
                     ok = matches!(r, Ok(Ok(())));
@@ -248,10 +266,12 @@ impl Property for C14 {
                         payout = true;
                     }
                 }
+                Op::TransferOwnership => unreachable!(),
                 Op::Refund { by, receiver, amount: a, .. } => {
                     let ri = *receiver as usize % NR;
                     amount = resolve(if ti == SLOPPY && *a == Amt::Max { Amt::BalPlus1 } else { *a }, held[ti]);
-                    expect = if *by != By::Collector {
+                    let signer_is_collector = *by == By::Collector || (*by == By::Owner && owner_now == gas.collector);
+                    expect = if !signer_is_collector {
                         E::Fail
                     } else if ti == SLOPPY && (amount < 0 || amount > held[ti]) {
                         // refund relies on the token to refuse out-of-range amounts; with a token that
@@ -309,7 +329,10 @@ impl Property for C14 {
                 }
                 for r in 0..NR {
                     if r != SELF_R {
-                        ensure_p!(tc.balance(&receivers[r]) == rbal[t][r], "after step {}: receiver balance differs from the model", step);
+                        // receivers may alias each other (single-key deployment: collector == owner): expected
+                        // balance of an address = sum over the receiver slots that are this address
+                        let want: i128 = (0..NR).filter(|q| *q != SELF_R && receivers[*q] == receivers[r]).map(|q| rbal[t][q]).sum();
+                        ensure_p!(tc.balance(&receivers[r]) == want, "after step {}: receiver balance differs from the model", step);
                     }
                 }
             }
